@@ -277,6 +277,30 @@ Theorem C09_manifest_open_truncates : forall cfg css m' p man0,
 Proof. exact ManifestRunProofs.reopen_torn. Qed.
 Print Assumptions C09_manifest_open_truncates.
 
+(* crash mid-append, open again, keep working (steps: addChanges / re-open, none rejected): the
+   later change sets are appended right after the whole records — the file replays to the whole
+   records' change sets followed by the accepted ones, and to the live table map.  (The seeded
+   "Seek before Truncate" mutation appends at the old size instead: the correspondence compares
+   the file bytes after every step of tear / re-open / append / re-open sequences.) *)
+Theorem C09_manifest_append_after_torn_tail : forall cfg css m' p man0 steps st outs,
+  cfg_ext cfg < 65536 ->
+  Forall (fun cs => wf_changeset cs = true) css ->
+  apply_sets empty_manifest css = (m', None) ->
+  N.of_nat (length (mf_image (cfg_ext cfg) css)) < two32 ->
+  replay (cfg_ext cfg) (mf_image (cfg_ext cfg) css ++ p)
+    = ROk m' (N.of_nat (length (mf_image (cfg_ext cfg) css))) ->
+  let st0 := fst (reopen cfg (mkMF (mf_image (cfg_ext cfg) css ++ p) man0)) in
+  run_ok false cfg st0 steps ->
+  run cfg st0 steps = (st, outs) ->
+  mf_bytes st0 = mf_image (cfg_ext cfg) css
+  /\ exists mr ms,
+       replay (cfg_ext cfg) (mf_bytes st) = ROk mr (N.of_nat (length (mf_bytes st)))
+       /\ same_tables mr (mf_man st)
+       /\ apply_sets empty_manifest (css ++ accepted steps outs) = (ms, None)
+       /\ same_tables mr ms.
+Proof. exact ManifestRunProofs.append_after_torn_tail. Qed.
+Print Assumptions C09_manifest_append_after_torn_tail.
+
 (* FULL STATEMENT (C09_manifest_zero_filled) — FALSE for the pinned tree (finding F5):
      ... replay ext (F ++ p ++ zeros) = ROk (state after css) _ .                               *)
 Theorem C09_manifest_zero_filled_refuted :
